@@ -72,6 +72,41 @@ def avctp_fragment(label: int, c_r: int, ipid: int, pid: int, payload: bytes, mt
     return out
 
 
+def avctp_fragment_pid_everywhere(label: int, c_r: int, ipid: int, pid: int, payload: bytes, mtu: int) -> list[bytes]:
+    """NOT the layout of the AVCTP specification: the profile identifier repeated in continue and end packets."""
+    b0 = lambda pt: label << 4 | pt << 2 | c_r << 1 | ipid
+    if len(payload) + 3 <= mtu:
+        return [bytes([b0(SINGLE), pid >> 8, pid & 0xFF]) + payload]
+    first = mtu - 4
+    per = mtu - 3
+    chunks = [payload[:first]]
+    rest = payload[first:]
+    while rest:
+        chunks.append(rest[:per])
+        rest = rest[per:]
+    n = len(chunks)
+    assert 2 <= n <= 255
+    out = [bytes([b0(START), n, pid >> 8, pid & 0xFF]) + chunks[0]]
+    for i, c in enumerate(chunks[1:], start=1):
+        out.append(bytes([b0(END if i == n - 1 else CONTINUE), pid >> 8, pid & 0xFF]) + c)
+    return out
+
+
+def avctp_layout_accepted() -> str:
+    """Which fragment layout the real assembler reassembles at all: 'spec' (profile identifier in the start packet
+    only), else 'pid_everywhere', else 'none'.  Decided by feeding one intact three-packet message to a fresh assembler."""
+    pl = payload_bytes(40, 3)
+    for name, fr in (('spec', avctp_fragment), ('pid_everywhere', avctp_fragment_pid_everywhere)):
+        real = RealAvctp()
+        got = []
+        for p in fr(3, 0, 0, 0x110E, pl, 20):
+            o, _ = real.feed(p)
+            got += o
+        if got == [(3, True, False, 0x110E, pl)]:
+            return name
+    return 'none'
+
+
 # ---------------------------------------------------------------------------
 # reference assemblers (used (a) strictly, for the sender check, where the input
 # is a complete well-formed sequence, and (b) as a set of *policy variants* that
@@ -126,6 +161,8 @@ class RefAvdtp:
 
 
 class RefAvctp:
+    SKIP = 1  # header bytes of a continue / end packet
+
     def __init__(self, policy=('ignore', 'ignore')):
         self.policy = policy
         self.cur = None  # (label, c_r, ipid, pid, n, count, payload)
@@ -164,7 +201,11 @@ class RefAvctp:
                 self.cur = None
             return []
         count += 1
-        data += pdu[1:]
+        if self.SKIP == 3 and (len(pdu) < 3 or (pdu[1] << 8 | pdu[2]) != pid):
+            if mis == 'discard' or len(pdu) < 3:
+                self.cur = None
+            return []
+        data += pdu[self.SKIP:]
         if pt == END:
             self.cur = None
             return [(cl, cc == 0, bool(ci), pid, data)] if count == n else []
@@ -175,12 +216,32 @@ class RefAvctp:
         return []
 
 
+class RefAvctpPid(RefAvctp):
+    SKIP = 3
+
+
 POLICIES = [(a, b) for a in ('ignore', 'discard') for b in ('ignore', 'discard')]
 
 
 # ---------------------------------------------------------------------------
 # wrappers around the real assemblers
 # ---------------------------------------------------------------------------
+def _canon_vars(obj):
+    """Every data attribute of the assembler (whatever it is called), in a hashable form."""
+    out = []
+    for k, v in sorted(vars(obj).items()):
+        if callable(v):
+            continue
+        if isinstance(v, (bytearray, memoryview)):
+            v = bytes(v)
+        elif isinstance(v, list):
+            v = tuple(bytes(x) if isinstance(x, (bytes, bytearray)) else repr(x) for x in v)
+        elif not isinstance(v, (int, bytes, str, bool, type(None), tuple, float)):
+            v = repr(v)
+        out.append((k, v))
+    return tuple(out)
+
+
 class RealAvdtp:
     proto = 'avdtp'
 
@@ -203,15 +264,7 @@ class RealAvdtp:
         return self.out, None
 
     def canon(self):
-        a = self.asm
-        return (
-            a.transaction_label,
-            None if a.message is None else bytes(a.message),
-            int(a.message_type),
-            int(a.signal_identifier),
-            a.number_of_signal_packets,
-            a.packet_count,
-        )
+        return _canon_vars(self.asm)
 
 
 class RealAvctp:
@@ -235,8 +288,7 @@ class RealAvctp:
         return self.out, None
 
     def canon(self):
-        a = self.asm
-        return (a.packets_received, a.transaction_label, a.pid, a.c_r, a.ipid, bytes(a.payload), a.number_of_packets)
+        return _canon_vars(self.asm)
 
 
 # ---------------------------------------------------------------------------
@@ -260,13 +312,17 @@ def avdtp_messages(lengths, mtu):
     return msgs
 
 
-def avctp_messages(lengths, mtu):
+def avctp_messages(lengths, mtu, fragment=None):
     msgs = []
     for i, n in enumerate(lengths):
         label, c_r, pid = i, i % 2, (0x110E, 0x1234, 0x110C)[i % 3]
         pl = payload_bytes(n, i + 5)
-        msgs.append({'key': (label, c_r == 0, False, pid, pl), 'frags': avctp_fragment(label, c_r, 0, pid, pl, mtu)})
+        msgs.append({'key': (label, c_r == 0, False, pid, pl), 'frags': (fragment or avctp_fragment)(label, c_r, 0, pid, pl, mtu)})
     return msgs
+
+
+def avctp_pid_messages(lengths, mtu):
+    return avctp_messages(lengths, mtu, avctp_fragment_pid_everywhere)
 
 
 def pdu_kind(pdu: bytes) -> str:
@@ -393,7 +449,7 @@ def bfs(proto: str, msgs, depth: int, max_states: int | None = None):
     Returns dict(states, transitions, impl_states, impl_edges, max_depth, violations,
     counters, capped)."""
     Real = RealAvdtp if proto == 'avdtp' else RealAvctp
-    Ref = RefAvdtp if proto == 'avdtp' else RefAvctp
+    Ref = RefAvdtp if proto == 'avdtp' else (RefAvctpPid if proto == 'avctp_pid' else RefAvctp)
     alpha = alphabet(proto, msgs)
     keys = [m['key'] for m in msgs]
     nfr = [len(m['frags']) for m in msgs]
